@@ -57,13 +57,65 @@ private def txHashHandler : Handler := fun
     | none => "bad-op"
   | _ => "bad-op"
 
+/-- hashes (plain, normalised) of the message in a table -/
+private def msgHashes (t : Table) : Outcome (List UInt8 × List UInt8) := do
+  let infos := Table.infos sha256 t
+  let root ← match infos[0]? with
+    | some i => i
+    | none => .err "empty table"
+  let h0 ← root.hashAt 3
+  let row ← match t[0]? with
+    | some r => pure r
+    | none => Outcome.err "empty table"
+  let m ← decodeMsg (tableStore t) ⟨row.bits, row.refs⟩
+  let kids ← kidsOf infos m.body.refs
+  let h1 ← match m.info with
+    | .extIn _ dest _ => normHashFrom sha256 dest m.body.bits kids
+    | _ => pure h0
+  pure (h0, h1)
+
+private def txHashOf (t : Table) : Outcome (List UInt8) :=
+  match (Table.infos sha256 t)[0]? with
+  | some i => i >>= (·.hashAt 3)
+  | none => .err "empty table"
+
+/-- a script over ONE reused variable (the state machine of TongoModel/Message.lean: every observation is a function
+of the last decoded table): `obs` maps a read step (`s`, `h`, `n`) and the last decoded table to the observed hash -/
+private def runSeq (obs : Char → Table → Outcome (List UInt8)) (script : String) (tables : List String) : String :=
+  let rec go (steps : List String) (last : Option Table) (acc : List String) : String :=
+    match steps with
+    | [] => " ".intercalate ("ok" :: acc.reverse)
+    | st :: rest =>
+      match st.toList with
+      | ['d', i] =>
+        match tables[i.toNat - 48]? with
+        | some ts => match parseTable ts with
+          | some t => go rest (some t) acc
+          | none => "bad-op"
+        | none => "bad-op"
+      | [c] =>
+        match last with
+        | none => go rest last acc
+        | some t => match obs c t with
+          | .ok h => go rest last (hexOut h :: acc)
+          | .err _ => "err"
+          | .panic _ => "panic"
+      | _ => "bad-op"
+  go (script.splitOn ".") none []
+
 /-- the `.hasher` variants are the same model functions: a sound caching hasher reports the representation hash
 (msg_hash_hasher_independent) -/
 def opsC16 : List (String × Handler) := [
   ("msg.hash", msgHashHandler),
   ("msg.hash.hasher", msgHashHandler),
   ("tx.hash", txHashHandler),
-  ("tx.hash.hasher", txHashHandler)
+  ("tx.hash.hasher", txHashHandler),
+  ("tx.seq", fun
+    | _ :: script :: tables => runSeq (fun _ t => txHashOf t) script tables
+    | _ => "bad-op"),
+  ("msg.seq", fun
+    | _ :: script :: tables => runSeq (fun c t => (msgHashes t).bind fun (h0, h1) => .ok (if c == 'n' then h1 else h0)) script tables
+    | _ => "bad-op")
 ]
 
 end Driver
